@@ -604,11 +604,11 @@ def build(chk: Check) -> None:
     chk.sub("split_int", o_split, strategy=near_int(), n={"quick": 20000, "thorough": 1500000})
     chk.sub("split_nonfinite", o_split_nonfinite, enum=lambda tier: [{"x": "nan"}, {"x": "inf"}, {"x": "-inf"}], exhaustive_tiers=("quick", "thorough"))
     chk.sub("snap_scale", o_snap_scale, strategy=s_scale(), n={"quick": 10000, "thorough": 800000})
-    chk.sub("snap_affine", o_snap_affine, strategy=s_snap_affine(), n={"quick": 4000, "thorough": 300000})
+    chk.sub("snap_affine", o_snap_affine, cov={"quick": 1500, "thorough": 150000}, strategy=s_snap_affine(), n={"quick": 4000, "thorough": 300000})
     chk.sub("align_enum", o_align, enum=e_align, exhaustive_tiers=("thorough",))
     chk.sub("pow2_enum", o_pow2, enum=e_pow2, exhaustive_tiers=("quick", "thorough"))
-    chk.sub("snap_grid", o_snap_grid, strategy=s_snap_grid(), n={"quick": 12000, "thorough": 1000000})
+    chk.sub("snap_grid", o_snap_grid, cov={"quick": 3000, "thorough": 400000}, strategy=s_snap_grid(), n={"quick": 12000, "thorough": 1000000})
     chk.sub("decompose_rws", o_rws, strategy=s_rws(), n={"quick": 3000, "thorough": 200000})
     chk.sub("fit", o_fit, strategy=s_fit(), n={"quick": 1500, "thorough": 100000})
     chk.sub("axis", o_axis, strategy=s_axis(), n={"quick": 3000, "thorough": 200000})
-    chk.sub("bin1d", o_bin, strategy=s_bin(), n={"quick": 6000, "thorough": 500000})
+    chk.sub("bin1d", o_bin, cov={"quick": 2000, "thorough": 300000}, strategy=s_bin(), n={"quick": 6000, "thorough": 500000})
